@@ -227,7 +227,10 @@ class SolverState(object):
             for (c, v), y in zip(self.cost.calls, ys):
                 yv = np.asarray(y, float).ravel().tolist()
                 vv = v if isinstance(v, list) else [v]
-                if len(yv) != len(vv) or any(not (a == b or (a != a and b != b)) for a, b in zip(yv, vv)):
+                # (a monitor with a multiplier k stores k*y and gives back (k*y)/k: exact for the powers of two used here,
+                #  except where k*y is subnormal - hence the few-denormals tolerance)
+                slack = 4e-323 if getattr(em, 'k', None) not in (None, 1) else 0.0
+                if len(yv) != len(vv) or any(not (a == b or (a != a and b != b) or abs(a - b) <= slack) for a, b in zip(yv, vv)):
                     ok = False; break
         self.expect(ok, 'C04.evalmon', lambda: dict(where=where, monitor_len=len(xs), real_calls=len(want), solver=self.kind))
 
